@@ -49,8 +49,11 @@ def parse_enums(src):
             if not fn.endswith(".rs"):
                 continue
             text = open(os.path.join(root, fn), errors="replace").read()
+            modname = os.path.splitext(fn)[0]
             for m in re.finditer(r"enum (\w+)(?:<[^>]*>)?\s*\{(.*?)\n\}", text, re.S):
                 body = re.sub(r"//.*", "", m.group(2))
+                # variants behind optional cargo features are not part of the build that is checked
+                body = re.sub(r"#\[cfg\(feature = \"(css_ext|html_trace|html_trace_bt)\"\)\]\s*(?:///.*\n\s*)*\w+(?:\([^)]*\)|\s*\{[^}]*\})?\s*,?", "", body)
                 body = re.sub(r"#\[[^\]]*\]", "", body)
                 names = []
                 depth = 0
@@ -72,6 +75,7 @@ def parse_enums(src):
                 if mm:
                     names.append(mm.group(1))
                 enums.setdefault(m.group(1), names)
+                enums[modname + "::" + m.group(1)] = names
     return enums
 
 
@@ -1821,6 +1825,94 @@ def spec_selector_combinators(ctx, make_exe):
                 comb, "" if comb == "CombChild" else " or the same selector holds one level up"))
     return {"function": f.name, "paths": total}
 
+# ----------------------------------------------------------------------------
+# SPEC: which declarations hide an element (styles_from_properties)
+# ----------------------------------------------------------------------------
+
+def spec_display_none_decls(ctx, make_exe):
+    f = the(ctx.find(r"styles_from_properties$", debug=["decls", "styles", "overflow_hidden", "height_zero"]), "css::styles_from_properties")
+    decl_variants = ctx.enums.get("Decl")
+    if not decl_variants:
+        raise Inconclusive("enum Decl not found")
+    idx0 = {name: i for i, name in enumerate(decl_variants)}
+    i_data0 = ctx.field("Declaration", "data")
+    from sym import VSlice
+    all_outs = []
+    for n in (1, 2):
+        exe = make_exe(loop_bound=6, timeout_ms=10000)
+        decls = VVec([VOpaque("parser::Declaration", "decl%d" % k) for k in range(n)])
+        st = State()
+        if n == 2:
+            # two declarations: the kinds that interact (the zero-height + hidden-overflow idiom, display)
+            for k in range(n):
+                d = z3.BitVec("decl%d.%d.discr" % (k, i_data0), 64)
+                st.pc.append(z3.Or(*[d == idx0[v] for v in ("Height", "MaxHeight", "Overflow", "OverflowY", "Display")]))
+        outs_n = exe.run(f.name, {1: VRef("val", VSlice(decls, VInt(u64(0), 64, False), VInt(u64(n), 64, False)))}, st)
+        all_outs.append((exe, n, outs_n))
+    exe, n, outs = all_outs[0]
+    if not outs:
+        raise Inconclusive("no path returned")
+    idx = {name: i for i, name in enumerate(decl_variants)}
+    i_data = ctx.field("Declaration", "data")
+
+    def dv(k):  # discriminant of decl k's data, if it was inspected
+        return exe.inputs.get("decl%d.%d.discr" % (k, i_data))
+
+    def inner(k):
+        return exe.inputs.get("decl%d.%d.0.discr" % (k, i_data))
+    overflow_hidden_idx = ctx.enums["Overflow"].index("Hidden")
+    disp_none_idx = [e for e in ("Display",) if e in ctx.enums]
+    pdisp = None
+    # parser::Display and css::Display share the name; the parser one has `Other`
+    for root, _, files in os.walk(os.path.join(ctx.src, "src", "css")):
+        pass
+    total_checked = 0
+    for (exe, n, outs) in all_outs:
+      for (s2, ret) in outs:
+          if not isinstance(ret, VVec):
+              raise Inconclusive("styles_from_properties did not return a vector")
+          got_none = 0
+          got_other = 0
+          last_is_idiom = False
+          for el in ret.elems:
+              style = el.fields[ctx.field("StyleDecl", "style")] if isinstance(el, VAgg) else None
+              if isinstance(style, VAgg) and style.variant == "Display":
+                  inner_v = style.fields[0]
+                  if (isinstance(inner_v, VAgg) and inner_v.variant == "None") or \
+                          (isinstance(inner_v, VOpaque) and inner_v.name.endswith("Display::None")):
+                      got_none += 1
+                      continue
+              got_other += 1
+          want_terms = []
+          hz_terms = []
+          oh_terms = []
+          for k in range(n):
+              d = dv(k)
+              if d is None:
+                  continue
+              base = "decl%d.%d" % (k, i_data)
+
+              def var(suffix):
+                  return exe.inputs.get(base + suffix)
+              dd = var("#Display.0.discr")
+              if dd is not None:
+                  want_terms.append(z3.If(z3.And(d == idx["Display"], dd == 0), 1, 0))
+              for kind in ("Height", "MaxHeight"):
+                  hv = var("#%s.0.discr" % kind)
+                  zero = next((exe.inputs[key] for key in exe.inputs if key.startswith("(%s#%s.0#Length.0 ==" % (base, kind))), None)
+                  if hv is not None and zero is not None:
+                      hz_terms.append(z3.And(d == idx[kind], hv == ctx.enums["Height"].index("Length"), zero))
+              for kind in ("Overflow", "OverflowY"):
+                  ov = var("#%s.0.discr" % kind)
+                  if ov is not None:
+                      oh_terms.append(z3.And(d == idx[kind], ov == overflow_hidden_idx))
+          idiom = z3.And(z3.Or(*hz_terms) if hz_terms else z3.BoolVal(False), z3.Or(*oh_terms) if oh_terms else z3.BoolVal(False))
+          want = z3.Sum(*(want_terms + [z3.If(idiom, 1, 0)])) if want_terms else z3.If(idiom, 1, 0)
+          post(exe, s2, want == got_none, f.name,
+               "display:none is produced exactly by display:none declarations and by the zero-height + hidden-overflow idiom (got %d)" % got_none)
+          total_checked += 1
+    return {"function": f.name, "paths": sum(len(o) for (_, _, o) in all_outs), "checked": total_checked}
+
 
 ALL = [
     Spec("table_col_width", ["C06", "C02", "C01"], spec_table_col_width,
@@ -1932,6 +2024,11 @@ ALL = [
          bounds="the element may or may not have a parent; the results of the recursive matches are arbitrary booleans",
          assumptions=["Node::get_parent returns an arbitrary optional parent; recursive do_matches calls are observed (their arguments) and return arbitrary booleans"],
          replay=lambda fd, vals, info: {"harness": "m_descendant_self", "values": [[0]]}),
+    Spec("display_none_decls", ["C18"], spec_display_none_decls,
+         functions=["css::styles_from_properties"],
+         bounds="two declarations of any kind (all Decl variants and their value enums symbolic); zero-ness of a length an arbitrary boolean",
+         assumptions=["declarations are opaque values with symbolic enum discriminants; floating point lengths are opaque, `== 0.0` is an arbitrary boolean"],
+         replay=lambda fd, vals, info: {"harness": "m_display_none", "values": [[0]]}),
     Spec("table_alloc_2col", ["C06", "C02", "C01", "C03"], spec_table_alloc_2,
          functions=["render_table_tree (whole function incl. estimate loop, allocation closures, shrink loop)",
                     "RenderTable::rows", "RenderTableRow::cells", "RenderTableCell::get_size_estimate", "SizeEstimate::max",
